@@ -31,8 +31,8 @@ TEXT = {
          "bounds: <=2 membership and <=3 catalogue events, 1-3 preemptions; partitions not assigned to the local node (raft loading not exercised); no solver variables occur"),
  "C03": ("Reduced claim: bounded model checking of the raft glue. The real RaftGroup.run loop is fed every Ready shape in the bound; on the recorded trace, for every crash instant, nothing is applied/acknowledged before the Ready was handed to the WAL, snapshots and entries are applied in order exactly once, local snapshots are labelled with the last applied index, a stored snapshot is restored before the first Ready. The end-to-end crash-recovery statement needs etcd/raft's replay and Badger's durability and is not decided.",
          "bounds: <=2 Readys with <=2 entries, <=2 committed entries, optional received snapshot; etcd/raft and Badger trusted; WAL answers across reopen are C06; no native replay (harness node and recording WAL have no native counterpart in a real cluster)"),
- "C05": ("Reduced claim: bounded model checking of the host-loop obligations etcd/raft documents: follower messages never leave before the Ready is saved, membership entries reach ApplyConfChange once in order (only the zero group touches the address book), undeliverable messages/snapshot outcomes are reported, Advance last, and a group with durable state is restarted rather than bootstrapped (real Server.setup run twice). Multi-replica safety/convergence under faults is etcd/raft's and is not decided.",
-         "bounds: <=2 Readys, <=2 messages of 5 types to reachable/unknown/failing peers; one restart; consensus trusted"),
+ "C05": ("Bounded model checking at two levels. (1) A 3-replica group of real RaftGroups around the real etcd/raft (interpreted, not stubbed) over real badgerWALs behind a faulty harness network: message loss (with and without error), duplication, reordering, one network partition (leader or follower side), one crash at a durable-write boundary or one graceful restart, optional log compaction so that laggards need a snapshot. Checked: every message's term, every granted vote and every acknowledged entry is durable on the sender when it leaves; applied lists of all replicas (also of restarted ones) are prefixes of one another at every quiescent point; a restarted replica resumes from the log and term it had made durable; after the faults stop a fresh proposal commits everywhere within the tick bound. (2) The host-loop obligations on every Ready shape (harness node), and restart-not-bootstrap through the real Server.setup run twice.",
+         "bounds: 3 replicas, <=1 message fault (2 thorough) per history, 1 partition, 1 crash or restart, 2-3 proposals (+2 per round to an isolated stale leader), fault decision points as listed in evidence.outside_bounds; one deterministic goroutine schedule between harness-driven ticks; not replayed natively (in-memory network, crash hooks and quiescence detection are engine-side); Ready-shape harness: <=2 Readys, <=2 messages of 5 types"),
  "C06": ("Bounded symbolic differential checking of the real badgerWAL against etcd's real MemoryStorage over an API-level Badger model: every call sequence in the bound (appends incl. conflicting overwrites, hard state, received snapshots below/at/above the last index, compaction, reopen), terms symbolic through the real raftpb codec, every read compared; second group unaffected; deleted group looks fresh. Counterexamples are replayed on a real in-memory Badger.",
          "bounds: <=3 calls (4 thorough), batches <=2, terms < 100; Badger API model trusted (validated by native replays); reference driven per the raft contract"),
  "C12": ("Bounded model checking of a one-node server assembled from the real components (handlers, DatasetManager, Dataset, partitions, ready loops, badgerWAL, Allocator): one hostile well-typed request per RPC over all request shapes in the bound; panics, fatal logs (apply errors) and deadlocks are violations, and the state the request leaves behind must snapshot and restore on a fresh replica; counterexamples replayed on a native one-node assembly with real etcd raft and real in-memory Badger.",
